@@ -339,17 +339,104 @@ pub fn build_clone(node: &Node, env: &Env) -> Option<CBx> {
       Src::FutureReady(v) => cbx(
         observable::from_future(CountingFut { v: Some(v.clone()), cn: env.counters.clone() }, VSched).on_error_map(inf as InfFn),
       ),
+      Src::Interval(p) => cbx(observable::interval(ticks(*p), VSched).map(|n: usize| V::I(n as i64)).on_error_map(inf as InfFn)),
       _ => return None,
     }),
-    Node::Un(op, _, inner) => {
+    Node::Un(op, tf, inner) => {
       let s = build_clone(inner, env)?;
-      match build_un_c03!(cbx, s, op, env) {
-        Ok(b) => Some(b),
-        Err(_) => None,
+      let s = match build_un_c03!(cbx, s, op, env) {
+        Ok(b) => return Some(b),
+        Err(s) => s,
+      };
+      let tf = *tf;
+      let _ = tf;
+      Some(match op {
+        Un::Finalize => {
+          let cn = env.counters.clone();
+          let f = move || lock!(cn).finalize_calls += 1;
+          two_c!(tf, s.finalize(f), s.finalize_threads(f))
+        }
+        Un::BoxIt => cbx(cbx(s)),
+        Un::ObserveOn => two_c!(tf, s.observe_on(VSched), s.observe_on_threads(VSched)),
+        Un::Delay(d) => two_c!(tf, s.delay(ticks(*d), VSched), s.delay_threads(ticks(*d), VSched)),
+        Un::DelaySubscription(d) => cbx(s.delay_subscription(ticks(*d), VSched)),
+        Un::SubscribeOn => cbx(s.subscribe_on(VSched)),
+        Un::Debounce(d) => cbx(s.debounce(ticks(*d), VSched)),
+        Un::Throttle(e) => cbx(s.throttle(|v: &V| ticks(1 + to_i(v).rem_euclid(3) as u64), edge(*e), VSched)),
+        Un::BufferWithTime(d) => cbx(s.buffer_with_time(ticks(*d), VSched).map(V::L)),
+        Un::BufferWithCountAndTime(n, d) => cbx(s.buffer_with_count_and_time(*n, ticks(*d), VSched).map(V::L)),
+        _ => return None,
+      })
+    }
+    Node::Bin(op, tf, a, b) => {
+      let (a, b) = (build_clone(a, env)?, build_clone(b, env)?);
+      let tf = *tf;
+      let _ = tf;
+      fn p2((x, y): (V, V)) -> V {
+        pair(x, y)
       }
+      Some(match op {
+        Bin::Merge => two_c!(tf, a.merge(b), a.merge_threads(b)),
+        Bin::Zip => two_c!(tf, a.zip(b).map(p2), a.zip_threads(b).map(p2)),
+        Bin::CombineLatest => two_c!(
+          tf,
+          a.combine_latest(b, |x: V, y: V| (x, y)).map(p2),
+          a.combine_latest_threads(b, |x: V, y: V| (x, y)).map(p2)
+        ),
+        Bin::WithLatestFrom => two_c!(tf, a.with_latest_from(b).map(p2), a.with_latest_from_threads(b).map(p2)),
+        Bin::TakeUntil => two_c!(tf, a.take_until(b), a.take_until_threads(b)),
+        Bin::SkipUntil => two_c!(tf, a.skip_until(b), a.skip_until_threads(b)),
+        Bin::Sample => two_c!(tf, a.sample(b), a.sample_threads(b)),
+        Bin::Buffer => cbx(a.buffer(b.map(|_: V| ())).map(V::L)),
+      })
     }
     _ => None,
   }
+}
+
+/// C13 (overlap): subscribe clone i of one built pipeline at virtual time starts[i],
+/// unsubscribe it `horizon` ticks later; returns each subscription's trace with times
+/// relative to its own start, and the counters at the end
+pub fn exec_overlap(node: &Node, starts: &[u64], horizon: u64) -> Option<(Vec<Vec<(u64, Ev)>>, Counters)> {
+  use crate::vtime;
+  vtime::reset(vtime::Mode::Fifo);
+  crate::stamp::set(0);
+  let env = Env::new(1);
+  let p = build_clone(node, &env)?;
+  // timeline of (time, is_stop, index)
+  let mut evs: Vec<(u64, bool, usize)> = vec![];
+  for (i, s) in starts.iter().enumerate() {
+    evs.push((*s, false, i));
+    evs.push((*s + horizon, true, i));
+  }
+  evs.sort();
+  let mut probes: Vec<Option<Probe>> = vec![None; starts.len()];
+  let mut subs: Vec<Option<BSub>> = (0..starts.len()).map(|_| None).collect();
+  let mut now = 0u64;
+  for (t, stop, i) in evs {
+    if t > now {
+      vtime::advance(ticks(t - now), true);
+      now = t;
+    }
+    if stop {
+      if let Some(s) = subs[i].take() {
+        s.unsubscribe();
+      }
+    } else {
+      let probe = Probe::new();
+      probes[i] = Some(probe.clone());
+      subs[i] = Some(p.clone().actual_subscribe(probe));
+      vtime::run_until_stalled();
+    }
+  }
+  vtime::run_until_stalled();
+  let traces = probes
+    .into_iter()
+    .enumerate()
+    .map(|(i, p)| p.map(|p| p.recs().into_iter().map(|r| (r.vt.saturating_sub(starts[i]), r.ev)).collect()).unwrap_or_default())
+    .collect();
+  let c = lock!(env.counters).clone();
+  Some((traces, c))
 }
 
 /// probe that subscribes another clone of the pipeline from inside its first `next`
